@@ -23,7 +23,9 @@ func RemoveTempName(in string) string {
 }
 
 func EscapeDotGraph(in string) string {
-	res := strings.ReplaceAll(in, "<", "\\<")
-	res = strings.ReplaceAll(res, ">", "\\>")
-	return res
+	// in a record label { } | < > separate or nest fields, and a double quote
+	// ends the label string: all of them are escaped
+	return dotEscaper.Replace(in)
 }
+
+var dotEscaper = strings.NewReplacer("<", "\\<", ">", "\\>", "{", "\\{", "}", "\\}", "|", "\\|", "\"", "\\\"")
